@@ -53,7 +53,22 @@
    hypotheses of C02_read_agree are stated on the first-pass state rather than on the text.
    Oracle / trust assumptions: genfromtxt behaves as Model/DataRead.v genfromtxt_rows /
    numpy_engine says; fhex (float(tok) succeeds, and to which double); fstr is irrelevant
-   on the domain (no text column). *)
+   on the domain (no text column).
+
+   (* ==== BEGIN note (audit D13): what "identical" means in the theorems above ==== *)
+   WHAT "full on dom2_lineb" MEANS.  A numeric cell of the model is `CNum tok`: the TEXT of the
+   token (Model/DataRead.v mk_num), and both engines are handed the SAME float() oracle fhex.
+   So C02_agree / C02_read_one_data / C02_read_agree state equality of the TOKEN MATRIX (same
+   shape, the same token text in every cell, the same NaN cells as decided by fhex) -- they do
+   not state, and no Coq theorem here states, that the two engines compute bit-identical
+   doubles from one token.  In lasio the fast engine converts with float() inside genfromtxt,
+   the reference engine with np.float64 followed by astype(float); that both map one token text
+   to the same IEEE double is (i) a fact about CPython / numpy carried by the single oracle
+   fhex (trust assumption: one token text, one double, whichever converter), and (ii) checked
+   by the correspondence run of harness/props/c02.py, which compares float.hex of every cell
+   of the two real reads on the generated spellings.  The property's "bit-identical values"
+   is therefore: token-matrix equality (proved, unbounded) + the oracle + the correspondence.
+   (* ==== END note (audit D13) ==== *) *)
 From Coq Require Import List NArith Bool String.
 Import ListNotations.
 Require Import PyStr Regex Regexes NumLit SectionParse Sections DataRead Read.
